@@ -7,9 +7,9 @@ import (
 	"strconv"
 	"time"
 
+	"go.opentelemetry.io/collector/component/componenttest"
 	"go.opentelemetry.io/collector/config/configretry"
 	"go.opentelemetry.io/collector/consumer/consumererror"
-	"go.opentelemetry.io/collector/exporter/exportertest"
 	"go.opentelemetry.io/collector/pdata/plog"
 	"go.opentelemetry.io/collector/pdata/pmetric"
 	"go.opentelemetry.io/collector/pdata/ptrace"
@@ -110,38 +110,46 @@ func c05OtherSignal(sig int, base error) error {
 func init() {
 	c05Throttle = NewThrottleRetry
 	bg := context.Background()
-	opts := func(rcfg configretry.BackOffConfig, timeout time.Duration) []Option {
-		return []Option{WithRetry(rcfg), WithTimeout(TimeoutConfig{Timeout: timeout})}
+	host := componenttest.NewNopHost()
+	opts := func(rcfg configretry.BackOffConfig, timeout time.Duration, queue bool) []Option {
+		o := []Option{WithRetry(rcfg), WithTimeout(TimeoutConfig{Timeout: timeout})}
+		if queue {
+			// configuration-level dimension: sending_queue with wait_for_result - the producer's context IS the request's context
+			qc := NewDefaultQueueConfig()
+			qc.WaitForResult, qc.NumConsumers = true, 1
+			o = append(o, WithQueue(qc))
+		}
+		return o
 	}
 	c05Signals = []c05Signal{
 		{name: "logs",
-			build: func(rcfg configretry.BackOffConfig, timeout time.Duration, push func(context.Context, []int) error) (*c05Exp, error) {
-				e, err := NewLogs(bg, exportertest.NewNopSettings(exportertest.NopType), &struct{}{},
-					func(ctx context.Context, ld plog.Logs) error { return push(ctx, c05LogIDs(ld)) }, opts(rcfg, timeout)...)
+			build: func(rcfg configretry.BackOffConfig, timeout time.Duration, queue bool, push func(context.Context, []int) error) (*c05Exp, error) {
+				e, err := NewLogs(bg, c05Settings(), &struct{}{},
+					func(ctx context.Context, ld plog.Logs) error { return push(ctx, c05LogIDs(ld)) }, opts(rcfg, timeout, queue)...)
 				if err != nil {
 					return nil, err
 				}
-				return &c05Exp{func(ctx context.Context, ids []int) error { return e.ConsumeLogs(ctx, c05Logs(ids)) }, func() { _ = e.Shutdown(bg) }}, nil
+				return &c05Exp{func(ctx context.Context, ids []int) error { return e.ConsumeLogs(ctx, c05Logs(ids)) }, func() { _ = e.Shutdown(bg) }, func() error { return e.Start(bg, host) }}, nil
 			},
 			partial: func(base error, rest []int) error { return consumererror.NewLogs(base, c05Logs(rest)) }},
 		{name: "traces",
-			build: func(rcfg configretry.BackOffConfig, timeout time.Duration, push func(context.Context, []int) error) (*c05Exp, error) {
-				e, err := NewTraces(bg, exportertest.NewNopSettings(exportertest.NopType), &struct{}{},
-					func(ctx context.Context, td ptrace.Traces) error { return push(ctx, c05TraceIDs(td)) }, opts(rcfg, timeout)...)
+			build: func(rcfg configretry.BackOffConfig, timeout time.Duration, queue bool, push func(context.Context, []int) error) (*c05Exp, error) {
+				e, err := NewTraces(bg, c05Settings(), &struct{}{},
+					func(ctx context.Context, td ptrace.Traces) error { return push(ctx, c05TraceIDs(td)) }, opts(rcfg, timeout, queue)...)
 				if err != nil {
 					return nil, err
 				}
-				return &c05Exp{func(ctx context.Context, ids []int) error { return e.ConsumeTraces(ctx, c05Traces(ids)) }, func() { _ = e.Shutdown(bg) }}, nil
+				return &c05Exp{func(ctx context.Context, ids []int) error { return e.ConsumeTraces(ctx, c05Traces(ids)) }, func() { _ = e.Shutdown(bg) }, func() error { return e.Start(bg, host) }}, nil
 			},
 			partial: func(base error, rest []int) error { return consumererror.NewTraces(base, c05Traces(rest)) }},
 		{name: "metrics",
-			build: func(rcfg configretry.BackOffConfig, timeout time.Duration, push func(context.Context, []int) error) (*c05Exp, error) {
-				e, err := NewMetrics(bg, exportertest.NewNopSettings(exportertest.NopType), &struct{}{},
-					func(ctx context.Context, md pmetric.Metrics) error { return push(ctx, c05MetricIDs(md)) }, opts(rcfg, timeout)...)
+			build: func(rcfg configretry.BackOffConfig, timeout time.Duration, queue bool, push func(context.Context, []int) error) (*c05Exp, error) {
+				e, err := NewMetrics(bg, c05Settings(), &struct{}{},
+					func(ctx context.Context, md pmetric.Metrics) error { return push(ctx, c05MetricIDs(md)) }, opts(rcfg, timeout, queue)...)
 				if err != nil {
 					return nil, err
 				}
-				return &c05Exp{func(ctx context.Context, ids []int) error { return e.ConsumeMetrics(ctx, c05Metrics(ids)) }, func() { _ = e.Shutdown(bg) }}, nil
+				return &c05Exp{func(ctx context.Context, ids []int) error { return e.ConsumeMetrics(ctx, c05Metrics(ids)) }, func() { _ = e.Shutdown(bg) }, func() error { return e.Start(bg, host) }}, nil
 			},
 			partial: func(base error, rest []int) error { return consumererror.NewMetrics(base, c05Metrics(rest)) }},
 	}
